@@ -160,6 +160,12 @@ partial def monitorLoop (h : IO.FS.Stream) (out : IO.FS.Stream) : IO Unit := do
             let extra := got.filter (fun x => !want.contains x)
             out.putStrLn s!"V {n} genesisLaw {opl}: odd-address={genesisOdd (exportG s0)} code `{r}` model `{want.headD ""}`; only model {miss.take 3} only code {extra.take 3}"
             viol := viol + 1
+          -- the preparation and the restart may only reset a context (paused, batch completed, batch counters zero):
+          -- no context lost or invented, batch counter and every consumer-set field as before (C09.context_over_restart)
+          if (g = .prep || g = .restart) && r = "R ok" then
+            for v in Mon.restartCtxs s0 s1 do
+              out.putStrLn s!"V {n} restartCtxs {v}"
+              viol := viol + 1
           pre := some s1
           -- a restart ends whatever was in flight: the cadence observer forgets the batch it was tracking
           if g = .restart && r = "R ok" then
